@@ -10,8 +10,8 @@ pub open spec fn pending(m: Map<Seq<char>, Seq<char>>) -> bool {
     || m.dom().contains("surround"@) || m.dom().contains("inside"@)
 }
 pub open spec fn foreign_pos(n: Seq<char>, m: Map<Seq<char>, Seq<char>>) -> bool {
-    // every kind located by x / y (+ width / height): rect, the invisible box and point, use / reuse instances, ...
-    if n == "rect"@ || n == "box"@ || n == "point"@ || n == "use"@ || n == "reuse"@ || n == "image"@ || n == "svg"@ || n == "foreignObject"@ {
+    // every kind located by x / y (+ width / height): rect, the invisible box and point, a text (its anchor), use / reuse instances, ...
+    if n == "rect"@ || n == "box"@ || n == "point"@ || n == "text"@ || n == "use"@ || n == "reuse"@ || n == "image"@ || n == "svg"@ || n == "foreignObject"@ {
         m.dom().contains("cx"@) || m.dom().contains("cy"@) || m.dom().contains("x1"@) || m.dom().contains("y1"@) || m.dom().contains("x2"@) || m.dom().contains("y2"@)
     } else if n == "circle"@ || n == "ellipse"@ {
         m.dom().contains("x"@) || m.dom().contains("y"@) || m.dom().contains("x1"@) || m.dom().contains("y1"@) || m.dom().contains("x2"@) || m.dom().contains("y2"@)
